@@ -144,6 +144,14 @@ class ModelRun(object):
             self.insts.pop(k, None)
             self.lines.append('f ok')
             return 'f %d' % k
+        if o == 'hostlimit':
+            # the driver process lowers its address-space limit (RLIMIT_AS) to `pages` pages on top of what it uses now: allocations
+            # of twice that size fail from here on
+            _, pages = op
+            for inst in self.insts.values():
+                inst.host_limit_pages = pages
+            self.lines.append('L ok')
+            return 'L %d' % pages
         if o == 'mayfail':
             # from here on a memory.grow beyond 1 GiB is executed: it may legitimately fail for lack of memory, so its expected
             # line lists both outcomes; the model continues as if it had failed (scripts using this touch nothing size-dependent)
